@@ -52,8 +52,7 @@ func bindQueue(c *Ctx, r *Rec) *queueRoles {
 	qr := &queueRoles{q: q, cls: cls}
 	st := structOf(q)
 	if st != nil {
-		for i := 0; i < st.NumFields(); i++ {
-			f := st.Field(i)
+		for _, f := range flatFields(q) {
 			switch u := f.Type().Underlying().(type) {
 			case *types.Chan:
 				qr.chanF = f
